@@ -1,4 +1,4 @@
-import Pw.C18.Decider
+import Pw.C18.UncovComplete
 
 /-! # C18: known findings as kernel-checked counterexamples, and non-vacuity examples -/
 namespace C18
@@ -146,5 +146,55 @@ example : Simple Gcirc ∧
   ⟨simple_of_simpleB (by decide), eq_of_isOk (by decide), by decide, eq_of_isOk (by decide), by decide⟩
 
 example : WFG Gcross ∧ uncovExists Gcross qcross = true := ⟨wfg_of_wfgB (by decide), by decide⟩
+
+/-! ## non-vacuity of the completeness theorems -/
+
+def triFreeB (G : MG) : Bool :=
+  (verts G).all fun x => (verts G).all fun y => (verts G).all fun z => !(adj G x y && adj G y z && adj G x z)
+
+theorem triangleFree_of_triFreeB {G : MG} (h : triFreeB G = true) : TriangleFree G := by
+  intro x y z h1 h2 h3
+  simp only [triFreeB, List.all_eq_true] at h
+  have := h x (adj_verts h1).1 y (adj_verts h1).2 z (adj_verts h2).2
+  rw [h1, h2, h3] at this
+  cases this
+
+theorem nbDefault_faithful {G : MG} (hW : WFG G) (x y : Nat) : y ∈ nbDefault G x ↔ adj G x y = true := by
+  unfold nbDefault
+  rw [List.mem_filter]
+  exact ⟨fun h => h.2, fun h => ⟨(hW x y h).2, h⟩⟩
+
+theorem bnbDefault_faithful (G : MG) (x y : Nat) : y ∈ bnbDefault G x ↔ hB G x y = true := by
+  unfold bnbDefault hB
+  rw [MG.mem_sym]
+  simp
+
+/-- the hypotheses of `uncovPdPath_complete_partial` are satisfiable (and its conclusion is checked
+    by evaluation): the circle path `Gcirc` is triangle-free -/
+example : Simple Gcirc ∧ WFG Gcirc ∧ TriangleFree Gcirc ∧
+    uncovGuard Gcirc { u := 1, c := 3, first := some 0 } = false ∧ Gcirc.nodes.length < 1000 ∧
+    (∃ p, UncovPd Gcirc { u := 1, c := 3, first := some 0 } p) :=
+  ⟨simple_of_simpleB (by decide), wfg_of_wfgB (by decide), triangleFree_of_triFreeB (by decide), by decide,
+   by decide, ⟨[0, 1, 2, 3], by decide⟩⟩
+
+/-- the hypotheses of `discPath_complete` / `discPath_found_iff` are satisfiable -/
+example : Simple Gfig4 ∧ WFG Gfig4 ∧ hC Gfig4 4 2 = false ∧ Gfig4.nodes.length < 1000 ∧
+    (∃ p, DiscPath Gfig4 3 2 4 p) :=
+  ⟨simple_of_simpleB (by decide), wfg_of_wfgB (by decide), by decide, by decide, ⟨[0, 1, 2, 3, 4], by decide⟩⟩
+
+/-- `uncovered_pd_path` with the default (ascending) orders: found ⇒ valid path; on triangle-free
+    skeletons found ⇔ a path exists (corollary of the two theorems, for the record) -/
+theorem uncovPdPath_found_iff_partial (G : MG) (hS : Simple G) (hW : WFG G) (hT : TriangleFree G)
+    (q : Query) (hfu : q.first ≠ some q.u) (hg : uncovGuard G q = false) (hlen : G.nodes.length < 1000) :
+    (∃ p, p ≠ [] ∧ uncovPdPath G (nbDefault G) q = .ok (p, true)) ↔ ∃ p, UncovPd G q p := by
+  constructor
+  · rintro ⟨p, hp, h⟩
+    exact ⟨p, uncovPdPath_sound G hS _ q hfu 1000 p h hp⟩
+  · intro hex
+    obtain ⟨p, h, hv⟩ := uncovPdPath_complete_partial G hS hW hT _ (nbDefault_faithful hW) q hfu hg 1000 hlen hex
+    refine ⟨p, ?_, h⟩
+    intro e; subst e
+    obtain ⟨_, _, _, h2, _⟩ := hv
+    simp at h2
 
 end C18
